@@ -15,26 +15,42 @@ from translate import interp_weights as TW
 
 PID = 'C15'
 SHARD_SIZE = 150
-RULE = ('interpolators: d in 1..3, axis lengths 1..5, uniform / non-uniform dyadic (and some non-dyadic) ascending '
-        'coordinate vectors, factory in {nearest, linear, per_axis with every scheme mix}, value dtype in '
-        '{float64, float32, complex128, int64, str}, calling convention in {single point, point array, mesh grid, '
-        'with/without out=}, evaluation coordinates drawn per axis from {node, midpoint tie, quarter point, '
-        'random dyadic inside, just below/above the hull within one cell, beyond one cell}; sampling: '
-        'space.element(callable) for callables generated from a small expression language in the flavours '
-        '{vectorised, odl.util.vectorize, broadcasting (some coordinates only), in-place only, dual-use, constant, '
-        '1-d x-instead-of-x[0], ufunc} x {float64, float32, complex}; Resampling / linear_deform as compositions. '
-        'A case is non-trivial when the values are not all equal; distinct by the full input tuple.')
+RULE = ('interp (check): d in 1..3, axis lengths 1..6, uniform / non-uniform dyadic (20%: non-dyadic, no ties) ascending '
+        'coordinate vectors, factory in {nearest, linear, per_axis with every scheme mix}, value dtype in {float64, '
+        'float32, complex128, int64, str}, calling convention in {single point, point array, mesh grid} x {no out, '
+        'out=NaN-filled, out of wrong shape, out of wrong dtype, points of wrong dimension}, evaluation coordinates '
+        'drawn per axis from {node, midpoint tie, quarter point, k/16 inside, below/above within one cell, exactly one '
+        'cell outside, beyond one cell}; sampling (scheck): callables generated from an expression language (consts, '
+        'coordinates, + - *, step) in the flavours {vectorised, odl.util.vectorize with/without otypes, broadcasting '
+        '(some coordinates only), in-place only, dual-use, constant, 1-d x-instead-of-x[0], ufunc} x {float64, float32, '
+        'complex128} x entry point {space.element, wrapper on mesh with out=, on point array, with out=, point by '
+        'point} on uniform (also nodes_on_bdry) and non-uniform grids with axis lengths 1..6; sampling_tensor: lists '
+        'of callables/constants and tuple-valued callables through sampling_function with shaped out_dtype; resample '
+        '(rcheck): Resampling(dom, ran, per-axis interp) of a sampled callable (with/without out=); deform: '
+        'linear_deform with displacement fields (point-array convention). Non-trivial = values not all equal; '
+        'distinct by the full input tuple.')
 ASSUMPTIONS = [
     'exact arithmetic: coordinates/values are small integers or dyadic rationals so float operations are exact '
-    '(non-dyadic spacings compared with tolerance 1e-12); rounding, overflow, NaN inputs are outside the theorems',
-    'coordinate vectors are strictly ascending (guaranteed by RectGrid; np.searchsorted is modelled as the number '
-    'of entries < x, which is what binary search returns on ascending vectors)',
-    'NumPy fancy indexing / broadcasting of the per-axis weight arrays is modelled as the tensor product over the '
-    'mesh (validated by the correspondence on mesh inputs, proved equal to point-wise evaluation in Coq)',
+    '(non-dyadic spacings compared with tolerance 1e-12 and without tie points); rounding, overflow, NaN inputs are '
+    'outside the theorems',
+    'coordinate vectors are strictly ascending (guaranteed by RectGrid); np.searchsorted is modelled as the number of '
+    'leading entries < x, proved equal to a lower-bound binary search on ascending vectors '
+    '(binary_search_is_prefix_count)',
+    'NumPy fancy indexing / broadcasting of the per-axis weight arrays is modelled as the tensor product over the mesh '
+    '(validated by the correspondence on mesh inputs; proved equal to point-wise evaluation in Coq)',
+    'the Q instance executed by vm_compute and the R instance used in proofs are the same polymorphic term (Q2R '
+    'homomorphism not proved here)',
     'the callable-wrapping machinery (sampling_function, _make_dual_use_func, vectorize) is Python dispatch: the '
     'model only states the values the callable denotes at the grid points (validated, not proved)',
+    'complex values: real and imaginary parts are interpolated separately (justified by '
+    'interpolation_linear_in_values; the code casts the weights to complex with zero imaginary part)',
 ]
-TRUSTED = ['C15/Model.v hand-written model of discr_utils.py interpolation code (tied by correspondence)',
+TRUSTED = ['translate/interp_weights.py (Python ast -> Gallina, fail-closed): _compute_nearest/linear_weights_edge, the '
+           'scheme dispatch, index clamping + normalised distance of _find_indices, np.where pick of '
+           '_NearestInterpolator._evaluate',
+           'C15/Model.v hand-written part: searchsorted as prefix count, NumPy negative-index wrap, C-order flat '
+           'indexing, the 2^d corner loop, calling conventions, collocation (tied by the correspondence)',
+           'C15/Call.v: which calls are rejected / non-finite (tied by the correspondence, error classes as enum)',
            'harness/c15.py generation of callables from the expression language (source text + exec)']
 
 SCH = {'nearest': 'SNearest', 'linear': 'SLinear'}
@@ -960,6 +976,24 @@ def search(rng, broken):
     return None
 
 
-LEVEL_TEXT = 'in progress'
-LEVEL_NOTE = 'in progress'
-TECHNIQUE = 'Coq proof by induction on axes / node lists + in-Coq differential correspondence'
+LEVEL_TEXT = ('Proof (partial: callable wrapping is validated, not proved). Over weight/edge rules, index clamping, '
+              'normalised distance and nearest pick REGENERATED from discr_utils.py on every run, Coq proves for every '
+              'dimension d, all axis lengths, all strictly ascending (uniform or not) coordinate vectors and all real '
+              'evaluation points: node values are reproduced exactly by every per-axis scheme mix; nearest returns the '
+              'closest node, the right one on ties, and nearest_interpolator = per_axis all-nearest; the 2^d corner sum '
+              'is the tensor product of per-axis blends and equals the textbook multilinear / mixed blend inside the '
+              'hull; linear interpolation is exact on affine functions and every mix reproduces constants and never '
+              'overshoots; the documented one-cell linear decay outside the hull; linearity in the values (complex); '
+              'mesh-grid evaluation = point-wise evaluation in C order; collocation gives the function at the nodes, '
+              'sampling then interpolating returns the function at nodes (affine: everywhere in the hull); resampling '
+              'onto the same grid is the identity. Three full statements are proved FALSE of the faithful model '
+              '(single-node linear axis -> nan; mesh grid with one point on the first axis rejected; per-axis nearest on '
+              'integers raises) and recorded as findings with the provable restriction.')
+LEVEL_NOTE = ('Tie: translator (fail-closed) for the table-like helpers + in-Coq correspondence (1400 quick / 11000 '
+              'thorough cases at Q, tolerance 0 on dyadic inputs) for searchsorted/indexing/corner loop/conventions/'
+              'error classes, sampling entry points, Resampling and linear_deform. Trusted: the translator, NumPy '
+              'searchsorted/fancy indexing/broadcasting semantics as modelled, exact arithmetic (rounding, e.g. complex '
+              'division by reciprocal near ties, out of scope), Q/R instance coincidence. Axioms: classical reals + '
+              'funext as printed by Print Assumptions.')
+TECHNIQUE = ('Coq proofs by induction on the axis list and on node lists (real-closed-field arithmetic per axis) over '
+             'source-regenerated weight rules + in-Coq differential correspondence')
